@@ -130,7 +130,10 @@ def prev_blocks_global(function: "Function", block: "BasicBlock") -> List["Basic
     if block == block.subroutine.entry:
         # if the block is the entry of the subroutine, return all blocks calling the subroutine
         if block.subroutine != function.main:
-            return function.caller_blocks(block.subroutine)
+            # The entry block can also be the target of a jump inside the subroutine, a loop back to the
+            # label of the subroutine: `sub: ...; bnz sub; retsub`
+            jump_predecessors = [bi for bi in block.prev if not bi.is_callsub_block]
+            return function.caller_blocks(block.subroutine) + jump_predecessors
         # the block is the main entry block of the contract
         return []
     if block.is_sub_return_point:
